@@ -491,6 +491,44 @@ func (w *world) setupLiquidity() {
 	guardians := []types.Address{g.User1.Address, g.User2.Address, g.User3.Address, g.User4.Address, g.User5.Address}
 	w.twice(admin, types.LiquidityContract, definition.ABILiquidity.PackMethodPanic(definition.NominateGuardiansMethodName, guardians), constants.MinAdministratorDelay)
 	w.deep.liqReady = true
+	// administrator calls whose parallel lists disagree in length, systematically: each of the four lists of SetTokenTuple
+	// shorter / longer than the others (two lists at random per history); refused when sent, or failing cleanly when received
+	for k := 0; k < 2 && !w.dead; k++ {
+		zs := []string{types.ZnnTokenStandard.String(), types.QsrTokenStandard.String()}
+		zp, qp := []uint32{5000, 5000}, []uint32{5000, 5000}
+		mins := []*big.Int{big.NewInt(1), big.NewInt(1)}
+		which, longer := w.rng.Intn(4), w.rng.Intn(2) == 0
+		switch which {
+		case 0:
+			if longer {
+				zs = append(zs, zs[0])
+			} else {
+				zs = zs[:1]
+			}
+		case 1:
+			if longer {
+				zp = append(zp, 0)
+			} else {
+				zp = zp[:1]
+			}
+		case 2:
+			if longer {
+				qp = append(qp, 0)
+			} else {
+				qp = qp[:1]
+			}
+		default:
+			if longer {
+				mins = append(mins, big.NewInt(1))
+			} else {
+				mins = mins[:1]
+			}
+		}
+		if data, err := definition.ABILiquidity.PackMethod(definition.SetTokenTupleMethodName, zs, zp, qp, mins); err == nil {
+			w.out.Count(fmt.Sprintf("deep:liquidity-tuples-of-unequal-length:list%d:longer=%v", which, longer))
+			w.twiceSoft(admin, types.LiquidityContract, data, constants.MinSoftDelay)
+		}
+	}
 }
 
 func (w *world) liquidityOp() {
@@ -521,6 +559,38 @@ func (w *world) liquidityOp() {
 		}
 		if len(zs) == 0 {
 			return
+		}
+		// the four lists are parallel: now and then ONE of them (any of the four, the last one included) is shorter or
+		// longer than the others — the administrator's call has to be refused when it is sent or fail cleanly when received
+		if rng.Intn(3) == 0 {
+			longer := rng.Intn(2) == 0
+			switch rng.Intn(4) {
+			case 0:
+				if longer {
+					zs = append(zs, zs[0])
+				} else {
+					zs = zs[:len(zs)-1]
+				}
+			case 1:
+				if longer {
+					zp = append(zp, 0)
+				} else {
+					zp = zp[:len(zp)-1]
+				}
+			case 2:
+				if longer {
+					qp = append(qp, 0)
+				} else {
+					qp = qp[:len(qp)-1]
+				}
+			default:
+				if longer {
+					mins = append(mins, big.NewInt(1))
+				} else {
+					mins = mins[:len(mins)-1]
+				}
+			}
+			w.out.Count("deep:liquidity-tuples-of-unequal-length")
 		}
 		data, err := definition.ABILiquidity.PackMethod(definition.SetTokenTupleMethodName, zs, zp, qp, mins)
 		if err != nil {
